@@ -1,11 +1,13 @@
 import RenetVerif.Renet.Driver
 import RenetVerif.Netcode.Driver
+import RenetVerif.Transport.Driver
 open RenetVerif
 
 /-- one world per engine; an op is offered to each engine's `step` in turn -/
 structure World where
   r : RDriver.RWorld := {}
   n : Netcode.Driver.NWorld := {}
+  t : Transport.Driver.TWorld := {}
 
 def stepLine (w : World) (line : String) : World × String :=
   let toks := (line.trimAscii.toString.splitOn " ").filter (· ≠ "")
@@ -13,13 +15,16 @@ def stepLine (w : World) (line : String) : World × String :=
   | "case" :: _ => ({}, "ok")
   | ["end"] => ({}, "ok")
   | _ =>
-    if w.r.dead || w.n.dead then (w, "dead") else
+    if w.r.dead || w.n.dead || w.t.dead then (w, "dead") else
     match RDriver.step w.r toks with
     | some (r', out) => ({ w with r := r' }, out)
     | none =>
       match Netcode.Driver.step w.n toks with
       | some (n', out) => ({ w with n := n' }, out)
-      | none => (w, "bad-op")
+      | none =>
+        match Transport.Driver.step w.t toks with
+        | some (t', out) => ({ w with t := t' }, out)
+        | none => (w, "bad-op")
 
 partial def loop (h : IO.FS.Stream) (out : IO.FS.Stream) (w : World) : IO Unit := do
   let line ← h.getLine
